@@ -275,8 +275,19 @@ def run_relational(prop, tier, seed, replay, families=FAMILIES, extra_models=Non
         res = engine.run_layout_cases(work, driver, props or [prop], cs, procs=procs)
         if prop != "C07" and res.violations:
             res = recheck(work, driver, prop, res, props or [prop])
+        models = list(extra_models or [])
+        if not replay:
+            # the mechanism models behind the relation, and the same calls once more under the layer-2 / layer-3 trace specification
+            if prop == "C17":
+                models.append(engine.bk_model(work, tier))
+            if prop in ("C07", "C08", "C09", "C17"):
+                sample = [dict(c, g=0, rel="") for c in cs if c.get("rel") in ("ref", "part", "union", "rename", "scale")]
+                random.Random(seed).shuffle(sample)
+                pd = engine.pipeline_diag(work, driver, sample, limit=300 if tier == "quick" else 2000)
+                if pd:
+                    models.append(pd)
         return engine.report(prop, res, known, tier, seed, {"groups": len({c["g"] for c in cs})}, ASSUME, t0, RULES[prop],
-                             level_models=extra_models)
+                             level_models=models)
     finally:
         work.cleanup()
 
